@@ -287,6 +287,39 @@ def run(db, tier):
     rep.floor("SimpleArg constructions in decode_args_with_abi", n_sa, 2)
     rep.check(bool(res), "R-IMM-INV", "decode_args_with_abi|consults is_always_immediate", da.loc, "is_always_immediate() is consulted", "is_always_immediate() is never consulted")
 
+    # ---------------- R-PROGRESS: the instruction-reading loop consumes input on every iteration
+    rep.rule("R-PROGRESS", "llir::read_instrs calls read_instr once on every trip round its loop, and every read_instr implementation reads at "
+                           "least one primitive from the stream before it reports an instruction (the file is finite, so the loop ends)")
+    ri = db.fn("llir::read_instrs")
+    rep.fn(ri)
+    call_bbs = set()
+    for g in [ri] + list(db.children.get(ri.id, [])):
+        for bi, t in g.calls():
+            if (t.get("f") or "").endswith("InstrFormat::read_instr"):
+                call_bbs.add((g.id, bi))
+    # the call sits in a closure passed to chain_with: the loop block is the chain_with call in read_instrs
+    loop_bbs = set(bi for bi, t in ri.calls() if (t.get("f") or "").endswith("chain_with") or (t.get("f") or "").endswith("InstrFormat::read_instr"))
+    headers = set(flow.innermost_header(ri, b) for b in loop_bbs) - {None}
+    ok = bool(call_bbs) and len(headers) == 1 and flow.every_iteration_passes(ri, list(headers)[0], loop_bbs)
+    rep.check(ok, "R-PROGRESS", "read_instrs|one read_instr per iteration", ri.loc, "every trip round the loop reads an instruction",
+              "read_instrs can go round its loop without calling read_instr (a script that does not end would be read forever)")
+    n_ri = 0
+    for im in db.impls:
+        if im["trait"] != "llir::InstrFormat" or im["self"].startswith("llir::Test"):
+            continue
+        for it in im["items"]:
+            if it["n"] != "read_instr":
+                continue
+            g = db.fns.get(it["id"])
+            if g is None:
+                continue
+            n_ri += 1
+            rep.fn(g)
+            okp, badret = flow.must_pass(g, ["io::BinRead::read_u8", "io::BinRead::read_i8", "io::BinRead::read_u16", "io::BinRead::read_i16", "io::BinRead::read_u32",
+                                             "io::BinRead::read_i32", "io::BinRead::read_f32", "read_i16_or_eof", "read_u32_or_eof", "read_i32_or_eof", "read_u16_or_eof", "read_byte_vec", "read_exact"])
+            rep.check(okp, "R-PROGRESS", "%s|reads before returning" % im["self"], g.loc, "every non-error path reads from the stream",
+                      "%s::read_instr can return without reading anything%s" % (im["self"], "" if badret is None else " (return in bb%d)" % badret))
+    rep.floor("read_instr implementations", n_ri, 8)
     # ---------------- R-PANIC-DECOMP: explicit panic sites in the decompile-side code of the format modules
     rep.rule("R-PANIC-DECOMP", "explicit panic sites (unwrap/expect/assert/unreachable/panic) in functions of src/formats reachable from the decompile "
                                "entry points are audited: one more such site than audited is a potential crash on file-derived data")
